@@ -86,6 +86,7 @@ pub struct Chain {
     pub unbondings: Vec<Unbonding>,
     pub rewards: BTreeMap<(String, String), BTreeMap<String, u128>>,
     pub withdraw_addr: BTreeMap<String, String>,
+    pub pay_lag: bool,
     pub can_redel: BTreeMap<String, bool>,
     pub unbonding_time: u64,
     pub bond_denom: String,
@@ -159,6 +160,7 @@ impl Chain {
             unbondings: vec![],
             rewards: Default::default(),
             withdraw_addr: Default::default(),
+            pay_lag: false,
             can_redel: Default::default(),
             unbonding_time: 100,
             bond_denom: "usei".into(),
@@ -545,9 +547,12 @@ impl Chain {
         *self.rewards.entry((delegator.into(), validator.into())).or_default().entry(denom.into()).or_default() += amt;
     }
     pub fn advance(&mut self, dt: u64) {
+        // pay_lag (exploration "E2-paylag" only): the end-blocker pays matured entries, so a block's transactions
+        // see what had matured by the previous block's time
+        let lim = if self.pay_lag { self.time } else { self.time + dt };
         self.time += dt;
         self.height += 1;
-        let (done, rest): (Vec<_>, Vec<_>) = self.unbondings.drain(..).partition(|u| u.completion <= self.time);
+        let (done, rest): (Vec<_>, Vec<_>) = self.unbondings.drain(..).partition(|u| u.completion <= lim);
         self.unbondings = rest;
         for u in done {
             self.mint_coins(&u.delegator, &self.bond_denom.clone(), u.amount);
@@ -591,6 +596,7 @@ pub struct Cfg {
     pub user_funds: u128,
     pub init_vals: Vec<u64>,
     pub prefix: Vec<Value>,
+    pub pay_lag: bool,
 }
 
 pub fn dec_of(v: &Value) -> Decimal {
@@ -623,6 +629,7 @@ impl Cfg {
             user_funds: v["UserFunds"].as_u64().unwrap() as u128,
             init_vals: v["InitVals"].as_array().unwrap().iter().map(|x| x.as_u64().unwrap()).collect(),
             prefix: v["Prefix"].as_array().cloned().unwrap_or_default(),
+            pay_lag: v["PayLag"].as_bool().unwrap_or(false),
         }
     }
     pub fn accts(&self) -> Vec<String> {
@@ -648,6 +655,7 @@ pub fn setup(cfg: &Cfg) -> Chain {
     use basset::hub::ExecuteMsg as H;
     let mut c = Chain::new();
     c.time = cfg.t0;
+    c.pay_lag = cfg.pay_lag;
     c.unbonding_time = cfg.unbonding;
     c.price = cfg.price;
     c.instantiate(Kind::Hub, "hub", "owner", to_json_binary(&basset::hub::InstantiateMsg {
